@@ -5,6 +5,7 @@ from gen import grid, data, unc, material
 from .common import tolist, Unchanged, keyword_call_differs, exceeds
 
 LEAN = "PystogVerif.Props.C09"
+LEAN_EXTRA = ["PystogVerif.Props.C09All"]
 RSP, QSP = ["g", "G", "GK"], ["F", "S", "FK", "DCS"]
 ENTRIES = [f"FourierFilter.{a}_using_{b}" for a in RSP for b in QSP]
 RULE = ("random physical data (g(r) with r>0, Q[S-1] with Q>0), non-zero uncertainties in 75% of cases, cutoff, material; "
